@@ -136,6 +136,20 @@ def p_index_through_scalar_siblings(script, v):
     return "switch_mixed_index" in features(script["programs"][0])
 
 
+def p_mixed_address_styles(script, v):
+    # a static function that uses both string and tuple addresses keeps its
+    # sub-traces in a dict keyed by str *and* tuple, which JAX cannot sort when
+    # it flattens the trace (jit, vmap, scan, eval_shape ...)
+    if "programs" not in script:
+        return False
+    from sim.gen import features
+
+    if "mixed_addr" in features(script["programs"][0]):
+        return True
+    st = _step(script, v)
+    return st.get("op") == "abort" and st.get("kind") == "reuse-hier"
+
+
 def p_true(script, v):
     return True
 
@@ -148,7 +162,7 @@ def match(known, pid, script, v):
     if script is None:
         return None
     for f in known.get("findings", []):
-        if v["oracle"] not in f["oracles"]:
+        if "*" not in f["oracles"] and v["oracle"] not in f["oracles"]:
             continue
         if f.get("class") and v["class"] != f["class"]:
             continue
